@@ -7,7 +7,16 @@
 //!   dijkstra_pred_sp   <wu-desc> <sources> <tgt>  => none | [path]
 //!        `DijkstraPred::shortest_path(tgt)`;  `tgt` ∈ `[in [ids]] always never`
 //!
-//! Every observation uses a fresh iterator on the same digraph. `usize::MAX` is printed as is.
+//!   dijkstra_repoll    <wu-desc> <sources> <k>    => [v…] [after…] [[v d]…] [dist…] [dist…] nx [pred…] pn [pred…]
+//!        state carried between calls (round 2): `Dijkstra` polled until `None` and then 3 more times
+//!        (`after`); ONE `DijkstraDist`: `k` items by `next()`, then `distances()` twice, then `next()`;
+//!        ONE `DijkstraPred`: `predecessors()`, `next()`, `predecessors()` again. The sources are
+//!        passed as lazy iterators (`filter`, `map_while`, `take_while`: size hints 0 / inexact).
+//!
+//! Every other observation uses a fresh iterator on the same digraph. `usize::MAX` is printed as is.
+//! Weights travel as i128 protocol integers and are converted with `usize::try_from` (`build_wu`),
+//! so the whole `usize` range is available; generated digraphs keep the sum of ALL arc weights
+//! ≤ 2^64 - 2, hence every `dist[u] + w` the code can form fits and never equals the sentinel.
 #![allow(unused_imports, dead_code, clippy::all)]
 
 use crate::graphs::{self, Desc};
@@ -66,6 +75,45 @@ pub fn eval(op: &str, args: &[V]) -> Option<Vec<V>> {
             let tree = DijkstraPred::new(&g, s.iter().copied()).predecessors();
             let pred: Vec<Option<usize>> = tree.into_iter().collect();
             Some(vec![items_v, V::L(pred.iter().map(|p| V::opt_u(*p)).collect())])
+        }
+        "dijkstra_repoll" => {
+            if args.len() != 3 {
+                return None;
+            }
+            let (d, s) = parse(args)?;
+            let k = args[2].as_usize()?;
+            let g = d.build_wu();
+            let bound = item_bound(&d);
+            // 1. Dijkstra: poll until None, then three more polls
+            let mut it = Dijkstra::new(&g, s.iter().copied().filter(|_| true));
+            let mut items = vec![];
+            let mut ended = false;
+            for _ in 0..bound {
+                match it.next() {
+                    Some(v) => items.push(v),
+                    None => {
+                        ended = true;
+                        break;
+                    }
+                }
+            }
+            if !ended || items.len() > d.order() {
+                return Some(vec![V::us(items), V::atom("overrun")]);
+            }
+            let after: Vec<V> = (0..3).map(|_| it.next().map_or_else(V::none, V::u)).collect();
+            // 2. one DijkstraDist object: k items, distances() twice, next()
+            let mut dd = DijkstraDist::new(&g, s.iter().copied().map_while(Some));
+            let first: Vec<(usize, usize)> = dd.by_ref().take(k).collect();
+            let d1 = dd.distances();
+            let d2 = dd.distances();
+            let nx = dd.next().map_or_else(V::none, |(v, w)| V::us([v, w]));
+            // 3. one DijkstraPred object: predecessors(), next(), predecessors()
+            let mut dp = DijkstraPred::new(&g, s.iter().copied().take_while(|_| true));
+            let p1: Vec<Option<usize>> = dp.predecessors().into_iter().collect();
+            let pn = dp.next().map_or_else(V::none, |(p, v)| V::L(vec![V::opt_u(p), V::u(v)]));
+            let p2: Vec<Option<usize>> = dp.predecessors().into_iter().collect();
+            let ov = |p: &[Option<usize>]| V::L(p.iter().map(|x| V::opt_u(*x)).collect());
+            Some(vec![V::us(items), V::L(after), V::pairs(first), V::us(d1), V::us(d2), nx, ov(&p1), pn, ov(&p2)])
         }
         "dijkstra_pred_sp" => {
             if args.len() != 3 {
@@ -211,6 +259,229 @@ fn gen_case(rng: &mut Rng, max_order: usize) -> (&'static str, Desc) {
     }
 }
 
+// ---- round 2: out-of-distribution families -------------------------------------------------
+// Invariant of every family: the sum of ALL arc weights is ≤ 2^64 - 2 (`WSUM`), so every sum
+// `dist[u] + w` the code can form (dist[u] is the weight of a simple path) fits in `usize` and
+// is never the sentinel `usize::MAX`.
+
+const WSUM: u64 = u64::MAX - 1;
+
+/// Transitive tournament `i -> j` (`i < j`, `j - i <= window`) with convex weights
+/// `scale * (j-i)^2 / div`: every relaxation improves its head, so the lazy-deletion heap grows to
+/// Θ(n²) entries (≫ 16·order for n ≥ 60) and almost every pop is a superseded entry.
+fn convex_tournament(n: usize, window: usize, scale: u64, div: u64) -> Desc {
+    let mut arcs = vec![];
+    for i in 0..n {
+        for j in (i + 1)..n.min(i + 1 + window) {
+            let k = (j - i) as u64;
+            arcs.push((i, j, scale * k * k / div));
+        }
+    }
+    wu(n, &arcs)
+}
+
+/// Small digraph whose weights use the whole `usize` range.  A backbone path of 1..=4 arcs gets a
+/// random partition of a budget `B` ∈ {WSUM, WSUM/2, …} (so its end lies at distance ≈ B: above
+/// 2^63 half of the time, above 2^62 three quarters of the time); the other arcs share what is
+/// left of `WSUM`, so the sum of all weights is ≤ WSUM and every path sum fits.
+fn huge_small(rng: &mut Rng) -> (Desc, usize) {
+    let n = 2 + rng.below(7);
+    let mut ids: Vec<usize> = (0..n).collect();
+    rng.shuffle(&mut ids);
+    let len = 1 + rng.below(n - 1).min(3);
+    let mut others: BTreeSet<(usize, usize)> = BTreeSet::new();
+    for _ in 0..rng.below(n + 1) {
+        let (u, v) = (rng.below(n), rng.below(n));
+        if u != v && !(0..len).any(|i| (ids[i], ids[i + 1]) == (u, v)) {
+            let _ = others.insert((u, v));
+        }
+    }
+    // budget of the backbone; keep at least 2^20 per other arc in reserve
+    let reserve = (others.len() as u64) << 20;
+    let budget = match rng.below(8) {
+        0..=3 => WSUM - reserve,
+        4 | 5 => (WSUM >> 1) + rng.below(3) as u64, // around 2^63 - 1 (the isize::MAX boundary)
+        6 => (1u64 << 62) + rng.below(2) as u64,
+        _ => 1u64 << (40 + rng.below(22)),
+    };
+    let mut arcs: Vec<(usize, usize, u64)> = vec![];
+    let mut left = budget;
+    for i in 0..len {
+        let w = if i + 1 == len {
+            left
+        } else {
+            match rng.below(4) {
+                0 => left / 2,
+                1 => left - left / 4,
+                2 => rng.below(10) as u64,
+                _ => rng.next() % (left + 1),
+            }
+        };
+        left -= w;
+        arcs.push((ids[i], ids[i + 1], w));
+    }
+    let rest = WSUM - budget;
+    let cap = if others.is_empty() { 0 } else { rest / others.len() as u64 };
+    for (u, v) in others {
+        let w = match rng.below(6) {
+            0 => cap,
+            1 => cap / 2,
+            2 | 3 => (rng.below(10) as u64).min(cap),
+            4 => (1u64 << (20 + rng.below(40))).min(cap),
+            _ => (rng.next() >> rng.below(40)).min(cap),
+        };
+        arcs.push((u, v, w));
+    }
+    rng.shuffle(&mut arcs);
+    (wu(n, &arcs), ids[0])
+}
+
+/// Long path (33..=max_n vertices) with a few forward chords; equal huge weights `WSUM/m >> k`:
+/// distances climb to 2^57 … 2^64 on orders where a packed/shifted key has few spare bits.
+fn huge_path(rng: &mut Rng, max_n: usize) -> Desc {
+    let n = 33 + rng.below(max_n - 32);
+    let chords = rng.below(n / 4 + 1);
+    let m = (n - 1 + chords) as u64;
+    let w = (WSUM / m) >> rng.below(12);
+    let mut arcs: Vec<(usize, usize, u64)> = (0..n - 1).map(|i| (i, i + 1, w - rng.below(2) as u64)).collect();
+    let mut seen: BTreeSet<(usize, usize)> = arcs.iter().map(|&(u, v, _)| (u, v)).collect();
+    for _ in 0..chords {
+        let u = rng.below(n - 2);
+        let v = u + 2 + rng.below((n - u - 2).min(6));
+        if v < n && seen.insert((u, v)) {
+            // a chord is never cheaper than half the path it skips: the long path stays relevant
+            arcs.push((u, v, w));
+        }
+    }
+    rng.shuffle(&mut arcs);
+    wu(n, &arcs)
+}
+
+/// Order 60..=max_n, about three arcs per vertex (plus a spanning path half of the time).
+fn big_sparse(rng: &mut Rng, max_n: usize) -> Desc {
+    let n = 60 + rng.below(max_n - 59);
+    let style = rng.below(5);
+    let mut seen: BTreeSet<(usize, usize)> = BTreeSet::new();
+    let mut arcs = vec![];
+    if rng.chance(1, 2) {
+        for i in 0..n - 1 {
+            let _ = seen.insert((i, i + 1));
+            arcs.push((i, i + 1, gen_weight(rng, style)));
+        }
+    }
+    for _ in 0..3 * n {
+        let (u, v) = (rng.below(n), rng.below(n));
+        if u != v && seen.insert((u, v)) {
+            arcs.push((u, v, gen_weight(rng, style)));
+        }
+    }
+    rng.shuffle(&mut arcs);
+    wu(n, &arcs)
+}
+
+/// Dense digraph (order 10..=40) with tiny weights incl. zeros: heap > 2·order together with
+/// distance ties and zero-weight arcs out of the vertex being settled.
+fn dense_ties(rng: &mut Rng) -> Desc {
+    let n = 10 + rng.below(31);
+    let hi = 1 + rng.below(6) as u64;
+    let mut arcs = vec![];
+    for u in 0..n {
+        for v in 0..n {
+            if u != v && rng.chance(4, 5) {
+                // descending ids are cheap: late improvements, many superseded entries
+                let w = if v < u { rng.below(2) as u64 } else { rng.below(hi as usize + 1) as u64 + (v - u) as u64 };
+                arcs.push((u, v, w));
+            }
+        }
+    }
+    rng.shuffle(&mut arcs);
+    wu(n, &arcs)
+}
+
+fn ood_sources(rng: &mut Rng, d: &Desc) -> Vec<usize> {
+    match rng.below(4) {
+        0 | 1 => vec![0],
+        2 => vec![rng.below(d.order())],
+        _ => graphs::gen_sources(rng, d.order()),
+    }
+}
+
+/// One out-of-distribution case; `size` scales orders (1 = quick, 2 = thorough, 3 = stress).
+fn gen_ood(rng: &mut Rng, size: usize) -> (Desc, Vec<usize>) {
+    let max_n = [100, 160, 300][size - 1];
+    match rng.below(32) {
+        0..=11 => {
+            let (d, start) = huge_small(rng);
+            let s = if rng.chance(3, 4) { vec![start] } else { ood_sources(rng, &d) };
+            (d, s)
+        }
+        12..=15 => {
+            let d = huge_path(rng, max_n);
+            let s = if rng.chance(3, 4) { vec![0] } else { ood_sources(rng, &d) };
+            (d, s)
+        }
+        16..=23 => {
+            let d = dense_ties(rng);
+            let s = ood_sources(rng, &d);
+            (d, s)
+        }
+        24..=29 => {
+            let d = big_sparse(rng, max_n);
+            let s = ood_sources(rng, &d);
+            (d, s)
+        }
+        _ => {
+            let n = [30, 48, 70][size - 1] + rng.below([20, 30, 60][size - 1]);
+            let window = if rng.chance(2, 3) { n } else { 8 + rng.below(n / 2) };
+            let (scale, div) = *rng.pick(&[(1u64, 1u64), (1, 1), (3, 1), (1, 2), (1u64 << 30, 1), (1, 4)]);
+            let d = convex_tournament(n, window, scale, div);
+            let s = if rng.chance(3, 4) { vec![0] } else { vec![0, rng.below(n)] };
+            let mut s = s;
+            s.dedup();
+            (d, s)
+        }
+    }
+}
+
+fn emit_ood(rng: &mut Rng, size: usize, count: usize, emit: &mut dyn FnMut(String)) {
+    for i in 0..count {
+        let (d, s) = gen_ood(rng, size);
+        let (dv, sv) = (d.to_v(), show_sources(&s));
+        match i % 8 {
+            0..=3 => emit(format!("dijkstra_all {dv} {sv}")),
+            4 => emit(format!("dijkstra_pred_tree {dv} {sv}")),
+            5 | 6 => emit(format!("dijkstra_pred_sp {dv} {sv} {}", gen_tgt(rng, &d, &s))),
+            _ => emit(format!("dijkstra_repoll {dv} {sv} {}", repoll_k(rng, d.order()))),
+        }
+    }
+}
+
+/// The stress stream (failing-input search after a broken tie): most promising cases first.
+fn gen_stress(rng: &mut Rng, emit: &mut dyn FnMut(String)) {
+    // (1) heaps ≫ order: convex tournaments 60..200 (a handful: the model pops Θ(n²) entries)
+    for &n in &[60usize, 100, 80, 130, 160, 200] {
+        let d = convex_tournament(n, n, 1, 1);
+        emit(format!("dijkstra_all {} [0]", d.to_v()));
+        if n <= 100 {
+            emit(format!("dijkstra_pred_tree {} [0]", d.to_v()));
+            emit(format!("dijkstra_repoll {} [0] {}", d.to_v(), n / 2));
+        }
+    }
+    // (2) the whole usize range on small digraphs and long paths; dense ties; big sparse
+    emit_ood(rng, 3, 3_000, emit);
+    // (3) state carried between calls on ordinary cases
+    for _ in 0..1_000 {
+        let (_, d) = gen_case(rng, MAX_ORDER);
+        let s = graphs::gen_sources(rng, d.order());
+        emit(format!("dijkstra_repoll {} {} {}", d.to_v(), show_sources(&s), repoll_k(rng, d.order())));
+    }
+}
+
+/// `k` of `dijkstra_repoll`: nothing / a part / everything consumed before `distances()`.
+fn repoll_k(rng: &mut Rng, n: usize) -> usize {
+    if rng.chance(1, 4) { 0 } else { rng.below(n + 2) }
+}
+
 fn show_sources(s: &[usize]) -> V {
     V::us(s.iter().copied())
 }
@@ -271,6 +542,22 @@ fn gen_tgt(rng: &mut Rng, d: &Desc, sources: &[usize]) -> V {
 const MAX_ORDER: usize = 60;
 
 pub fn gen(rng: &mut Rng, thorough: bool, emit: &mut dyn FnMut(String)) {
+    if crate::stress() {
+        // the search wants a failing input fast: only the out-of-distribution stream
+        gen_stress(rng, emit);
+        return;
+    }
+    // round 2: a share of out-of-distribution cases (usize-range weights, heaps ≫ order, orders up
+    // to 100 / 160, dense ties) and of state-carried-between-calls cases in the ordinary tiers
+    {
+        let mut sub = rng.fork();
+        emit_ood(&mut sub, if thorough { 2 } else { 1 }, if thorough { 3_000 } else { 320 }, emit);
+        for _ in 0..(if thorough { 4_000 } else { 120 }) {
+            let (_, d) = gen_case(&mut sub, MAX_ORDER);
+            let s = graphs::gen_sources(&mut sub, d.order());
+            emit(format!("dijkstra_repoll {} {} {}", d.to_v(), show_sources(&s), repoll_k(&mut sub, d.order())));
+        }
+    }
     let n_random = if thorough { 40_000 } else { 700 };
     for _ in 0..n_random {
         let (_, d) = gen_case(rng, MAX_ORDER);
@@ -352,5 +639,35 @@ fn gen_pred_n(rng: &mut Rng, n_random: usize, exhaustive: bool, emit: &mut dyn F
 
 /// `DijkstraPred` cases (predecessors / shortest_path); also part of C05's run.
 pub fn gen_pred(rng: &mut Rng, thorough: bool, emit: &mut dyn FnMut(String)) {
+    if crate::stress() {
+        // C05's search: the pred ops on the out-of-distribution families
+        for &n in &[60usize, 100] {
+            let d = convex_tournament(n, n, 1, 1);
+            emit(format!("dijkstra_pred_tree {} [0]", d.to_v()));
+            emit(format!("dijkstra_pred_sp {} [0] [in [{}]]", d.to_v(), n - 1));
+        }
+        for i in 0..3_000 {
+            let (d, s) = gen_ood(rng, 3);
+            let (dv, sv) = (d.to_v(), show_sources(&s));
+            match i % 4 {
+                0 => emit(format!("dijkstra_pred_tree {dv} {sv}")),
+                1 | 2 => emit(format!("dijkstra_pred_sp {dv} {sv} {}", gen_tgt(rng, &d, &s))),
+                _ => emit(format!("dijkstra_repoll {dv} {sv} {}", repoll_k(rng, d.order()))),
+            }
+        }
+        return;
+    }
+    {
+        let mut sub = rng.fork();
+        for i in 0..(if thorough { 2_000 } else { 90 }) {
+            let (d, s) = gen_ood(&mut sub, if thorough { 2 } else { 1 });
+            let (dv, sv) = (d.to_v(), show_sources(&s));
+            if i % 3 == 0 {
+                emit(format!("dijkstra_pred_tree {dv} {sv}"));
+            } else {
+                emit(format!("dijkstra_pred_sp {dv} {sv} {}", gen_tgt(&mut sub, &d, &s)));
+            }
+        }
+    }
     gen_pred_n(rng, if thorough { 10_000 } else { 400 }, thorough, emit);
 }
